@@ -51,6 +51,10 @@ type Op struct {
 	Byz  bool `json:"byz,omitempty"`  // skip PrepareProposal (byzantine proposer: txs as given)
 
 	Note string `json:"note,omitempty"`
+
+	// precompile arms
+	A     []string `json:"a,omitempty"`     // symbolic method arguments
+	Chain string   `json:"chain,omitempty"` // call chain through router contracts, see ParseChain
 }
 
 // Script is a complete, replayable description of one run.
@@ -74,6 +78,8 @@ type Sent struct {
 	IsEth   bool
 	Created common.Address // CREATE address for creations
 	Meta    map[string]string
+	Erc20   *Erc20Call
+	PcCall  *PcCall
 }
 
 // World is the interpreter state.
@@ -91,6 +97,8 @@ type World struct {
 	OnBlock []func(w *World, rec *BlockRecord, txs []*TxInfo)
 	C06     *C06Model
 	Q       *C08State
+	ByHash  map[common.Hash]*Sent
+	C10     *C10Model
 	opIdx   int
 }
 
@@ -457,6 +465,12 @@ func (w *World) Submit(s *Sent, via string) {
 	if s != nil {
 		w.Sent = append(w.Sent, s)
 		idx = len(w.Sent) - 1
+		if s.EthTx != nil {
+			if w.ByHash == nil {
+				w.ByHash = map[common.Hash]*Sent{}
+			}
+			w.ByHash[s.EthTx.Hash()] = s
+		}
 	}
 	w.submitBytes(s.Bytes, idx, via)
 }
@@ -566,6 +580,9 @@ func (w *World) AfterBlock(rec *BlockRecord) {
 	for _, t := range txs {
 		if t.Res != nil {
 			r.Logf(" tx %d code=%d gw=%d gu=%d ev=%d data=%x", t.Pos, t.Res.Code, t.Res.GasWanted, t.Res.GasUsed, len(t.Res.Events), sha(t.Res.Data))
+			if r.KeepLog && t.Res.Code != 0 {
+				fmt.Printf("    log: %s\n", clip(t.Res.Log))
+			}
 		}
 	}
 	RunAlwaysOn(w, rec, txs)
